@@ -15,13 +15,12 @@ No well-formedness of `body` is needed for this: it follows from byte conservati
 (`parser_conserves`, proved once for ALL programs, so it also covers whatever the translator regenerates) plus
 `expectZeroSize` and the drain on kafka errors (`discardOnKafkaError`, the D2 fix).
 
-Operations outside that theorem, and why:
-  * listOffsets (`readOffset`): returns the kafka error from inside the partition loop without a drain; aligned only
-    because a list-offsets response to a one-partition request has one topic with one partition, the error code being
-    followed by the two int64 of the same entry: `listOffsets_aligned_wf` (∀ topic name, partition, error code,
-    timestamp, offset, trailing bytes — for the regenerated operation by `listOffsets_gen_shape`);
-    `listOffsets_two_partitions_counterexample` shows why the shape hypothesis is needed, `listOffsets_wf_example`
-    is a concrete instance.
+Operations that needed more than the table entry, and why:
+  * listOffsets (`readOffset`): inside the main theorems since the fix C11-D34 (the kafka error left the partition
+    loop without a drain: `listOffsets_two_partitions_counterexample` keeps that shape); `listOffsets_aligned_wf`
+    adds that every frame of the shape a broker answers a one-partition request with (∀ topic name, partition, error
+    code, timestamp, offset, trailing bytes) gives ok / that kafka error with exactly the frame consumed — for the
+    regenerated operation by `listOffsets_gen_shape`; `listOffsets_wf_example` is a concrete instance.
   * fetch (`ReadBatchWith`/`Batch`): `fetch_aligned_or_closed`, for every message-set reader that conserves bytes (the
     hypothesis is discharged for the reader stack of message_reader.go: `stackBody_conserves`); unconditional since the
     fix C11-D32 (`fetch_at_watermark_counterexample` keeps the unfixed shape).
@@ -166,7 +165,7 @@ theorem closed_stays_failed_fetch (fixed : Bool) (v : Nat) (off : Int) (b : Body
 /-! ### the operation table satisfies the hypotheses (facts regenerated from /repo on every run) -/
 
 /-- operations covered by `aligned_or_closed` -/
-def coveredOps : List String := doOps.filter (· != "listOffsets")
+def coveredOps : List String := doOps      -- all of them since list-offsets drains on kafka errors (fix C11-D34)
 
 def goodFor (name : String) (vs : List Nat) : Bool :=
   match specOf name with
@@ -511,16 +510,22 @@ theorem reader_stack_counterexamples :
 
 end ReaderStackSec
 
-/-! ### listOffsets: the one operation that relies on the shape of a well-formed frame -/
+/-! ### listOffsets: inside the main theorems since it drains on kafka errors (fix C11-D34); the shape theorem stays -/
+
+/-- list-offsets as it was before the fix C11-D34: the kafka error leaves the partition loop without a drain -/
+def listOffsetsUnfixed : OpSpec :=
+  { parse := fun _ => readOffsetClosure Gen.ConnLegacy.partitionOffsetV1, drain := false, expectZero := true, post := .none, closeOnErr := true }
 
 /-- two partitions in one list-offsets response (never sent for a one-partition request), error in the first:
-the second entry stays unread on a Conn that is kept — the reason `listOffsets` is outside `aligned_or_closed`. -/
+without the drain the second entry stayed unread on a Conn that is kept; the current (regenerated) operation skips it. -/
 def listOffsets2 : Bytes :=
   [0,0,0,1, 0,1,116, 0,0,0,2, 0,0,0,0, 0,6, 0,0,0,0,0,0,0,0, 0,0,0,0,0,0,0,0,
                                0,0,0,1, 0,0, 0,0,0,0,0,0,0,0, 0,0,0,0,0,0,0,9]
 theorem listOffsets_two_partitions_counterexample :
-    ((specOf "listOffsets").map fun o => (opRead o 1 [116] ⟨listOffsets2, listOffsets2.length⟩).1) = some (.kafka 6) ∧
-    ((specOf "listOffsets").map fun o => (opRead o 1 [116] ⟨listOffsets2, listOffsets2.length⟩).2.sz) = some 22 := by
+    (opRead listOffsetsUnfixed 1 [116] ⟨listOffsets2, listOffsets2.length⟩).1 = .kafka 6 ∧
+    (opRead listOffsetsUnfixed 1 [116] ⟨listOffsets2, listOffsets2.length⟩).2.sz = 22 ∧
+    ((specOf "listOffsets").map fun o => (opRead o 1 [116] ⟨listOffsets2 ++ [9], listOffsets2.length⟩)) =
+      some (.kafka 6, ⟨[9], 0⟩) := by
   decide
 
 theorem readInt_app (a r : Bytes) (n sz : Nat) (h : a.length = n) (hn : n ≤ sz) :
@@ -544,7 +549,7 @@ theorem discardN_app (a r : Bytes) (n : Int) (sz : Nat) (h : (a.length : Int) = 
 timestamp, offset; any bytes after the frame.  Result: ok / that kafka error, frame exactly consumed. -/
 theorem listOffsets_aligned_wf (o : OpSpec) (topic c1 lenb name c2 part err ts off rest : Bytes)
     (hparse : o.parse 1 = readOffsetClosure [.int 4, .err, .int 8, .int 8])
-    (hdrain : o.drain = false) (hzero : o.expectZero = true) (hpost : o.post.eval topic = fun _ => none)
+    (hzero : o.expectZero = true) (hpost : o.post.eval topic = fun _ => none)
     (h1 : c1.length = 4) (h1v : beInt c1 = 1) (hl : lenb.length = 2) (hn : beInt lenb = name.length)
     (h2 : c2.length = 4) (h2v : beInt c2 = 1)
     (hp : part.length = 4) (he : err.length = 2) (ht : ts.length = 8) (ho : off.length = 8) :
@@ -575,13 +580,13 @@ theorem listOffsets_aligned_wf (o : OpSpec) (topic c1 lenb name c2 part err ts o
   simp only []
   by_cases hz : beInt err = 0
   · simp [hz, hzero, hpost]
-  · simp [hz, hdrain]
+  · simp [hz]
 
 /-- the regenerated list-offsets operation has exactly the shape `listOffsets_aligned_wf` is about -/
 theorem listOffsets_gen_shape : ∃ o, specOf "listOffsets" = some o ∧
-    o.parse 1 = readOffsetClosure [.int 4, .err, .int 8, .int 8] ∧ o.drain = false ∧ o.expectZero = true ∧
+    o.parse 1 = readOffsetClosure [.int 4, .err, .int 8, .int 8] ∧ o.expectZero = true ∧
     (∀ t, o.post.eval t = fun _ => none) :=
-  ⟨_, rfl, rfl, by decide, by decide, fun _ => rfl⟩
+  ⟨_, rfl, rfl, by decide, fun _ => rfl⟩
 
 /-! ### the read lock is released on every exit path (regenerated facts), a leaked lock blocks forever -/
 
